@@ -6,27 +6,34 @@ Lemmas for the shared.rs layer (`Model/ChunkCacheShared.lean`): nested `make_sub
 -/
 namespace CC
 
-theorem build_ok (v : View) (subs : List (Nat × Nat)) (h : v.start + (subs.map (·.1)).sum < U64) :
-    ∃ v', v.build subs = some v' ∧ v'.start = v.start + (subs.map (·.1)).sum := by
+/-- nested `make_subrange` = sum of the starts, capped at `u64::MAX` -/
+theorem build_start (v : View) (subs : List (Nat × Nat)) :
+    (v.build subs).start =
+      if subs.isEmpty then v.start else min (v.start + (subs.map (·.1)).sum) (U64 - 1) := by
   induction subs generalizing v with
-  | nil => exact ⟨v, rfl, by simp⟩
+  | nil => rfl
   | cons e rest ih =>
     obtain ⟨s, z⟩ := e
-    simp only [List.map_cons, List.sum_cons] at h
-    have n1 : ¬ U64 ≤ v.start + s := by omega
-    simp only [View.build, View.makeSubrange, n1, if_false]
-    obtain ⟨v', h1, h2⟩ := ih ⟨v.start + s, z⟩ (by simp only; omega)
-    exact ⟨v', h1, by rw [h2]; simp only [List.map_cons, List.sum_cons]; omega⟩
+    simp only [View.build, List.isEmpty_cons, Bool.false_eq_true, if_false, List.map_cons, List.sum_cons]
+    rw [ih]
+    simp only [View.makeSubrange]
+    cases rest with
+    | nil => simp
+    | cons e' rest' =>
+      simp only [List.isEmpty_cons, Bool.false_eq_true, if_false]
+      simp only [Nat.min_def]
+      repeat' split
+      all_goals omega
 
-/-- the excluded point: a non-empty chain of `make_subrange` whose starts add up to `2^64` or more panics -/
-theorem build_overflow (v : View) (subs : List (Nat × Nat)) (hne : subs ≠ [])
-    (h : U64 ≤ v.start + (subs.map (·.1)).sum) : v.build subs = none := by
+/-- the pre-fix chain: a non-empty chain of `make_subrange` whose starts add up to `2^64` or more panics -/
+theorem buildLegacy_overflow (v : View) (subs : List (Nat × Nat)) (hne : subs ≠ [])
+    (h : U64 ≤ v.start + (subs.map (·.1)).sum) : v.buildLegacy subs = none := by
   induction subs generalizing v with
   | nil => exact absurd rfl hne
   | cons e rest ih =>
     obtain ⟨s, z⟩ := e
     simp only [List.map_cons, List.sum_cons] at h
-    simp only [View.build, View.makeSubrange]
+    simp only [View.buildLegacy, View.makeSubrangeLegacy]
     by_cases n1 : U64 ≤ v.start + s
     · simp only [n1, if_true]
     · simp only [n1, if_false]
@@ -34,8 +41,23 @@ theorem build_overflow (v : View) (subs : List (Nat × Nat)) (hne : subs ≠ [])
       | nil => simp only [List.map_nil, List.sum_nil] at h; omega
       | cons e' rest' => exact ih ⟨v.start + s, z⟩ (by simp) (by simp only; omega)
 
+/-- …and without overflow the pre-fix chain is the repaired one -/
+theorem buildLegacy_ok (v : View) (subs : List (Nat × Nat)) (h : v.start + (subs.map (·.1)).sum < U64) :
+    v.buildLegacy subs = some (v.build subs) := by
+  induction subs generalizing v with
+  | nil => rfl
+  | cons e rest ih =>
+    obtain ⟨s, z⟩ := e
+    simp only [List.map_cons, List.sum_cons] at h
+    have n1 : ¬ U64 ≤ v.start + s := by omega
+    have hm : min (v.start + s) (U64 - 1) = v.start + s := by
+      simp only [Nat.min_def]; split <;> omega
+    simp only [View.buildLegacy, View.makeSubrangeLegacy, n1, if_false, View.build, View.makeSubrange, hm]
+    exact ih ⟨v.start + s, z⟩ (by simp only; omega)
+
 theorem viewBase_start (len : Nat) (base : Option (Nat × Nat)) (subs : List (Nat × Nat)) :
-    (viewBase len base).start + (subs.map (·.1)).sum = viewStart base subs := by
+    ((viewBase len base).build subs).start = viewStart base subs := by
+  rw [build_start]
   cases base with
   | none => simp [viewBase, viewStart]
   | some b => obtain ⟨s, z⟩ := b; simp [viewBase, viewStart]
@@ -46,7 +68,7 @@ theorem slice_all (F : List UInt8) : slice F 0 F.length = F := by simp [slice]
 
 /-- the step lemma of the shared.rs layer -/
 theorem vstep_spec (c : Cfg) (F : List UInt8) (hc : 0 < c.chunk) (hsz : F.length < U64)
-    (hf : Faithful F c.src) (st : St) (hinv : Inv F st) (v : VOp) (hstart : v.startOk) :
+    (hf : Faithful F c.src) (st : St) (hinv : Inv F st) (v : VOp) :
     Inv F (vstep c st v).1 ∧
     ((vstep c st v).2 = vspec F v ∨
      ((vstep c st v).2 = .err v.srcErr ∧ (vstep c st v).1 = st ∧ SrcFails c F (v.under F.length))) := by
@@ -83,10 +105,7 @@ theorem vstep_spec (c : Cfg) (F : List UInt8) (hc : 0 < c.chunk) (hsz : F.length
     · left; rw [hs]
     · right; rw [h1]; exact ⟨rfl, h2, h3⟩
   | vread base subs o n =>
-    simp only [VOp.startOk] at hstart
-    obtain ⟨v', hb, hv⟩ := build_ok (viewBase st.fileLen base) subs (by rw [viewBase_start]; exact hstart)
-    rw [viewBase_start] at hv
-    simp only [vstep, vspec, VOp.srcErr, VOp.under, hb, hv]
+    simp only [vstep, vspec, VOp.srcErr, VOp.under, viewBase_start]
     by_cases hov : U64 ≤ viewStart base subs + o
     · simp only [hov, if_true]; exact ⟨hinv, Or.inl trivial⟩
     · simp only [hov, if_false]
@@ -96,10 +115,7 @@ theorem vstep_spec (c : Cfg) (F : List UInt8) (hc : 0 < c.chunk) (hsz : F.length
       · left; rw [hs]
       · right; rw [h1]; exact ⟨rfl, h2, h3⟩
   | vuntil base subs r d =>
-    simp only [VOp.startOk] at hstart
-    obtain ⟨v', hb, hv⟩ := build_ok (viewBase st.fileLen base) subs (by rw [viewBase_start]; exact hstart)
-    rw [viewBase_start] at hv
-    simp only [vstep, vspec, VOp.srcErr, VOp.under, hb, hv]
+    simp only [vstep, vspec, VOp.srcErr, VOp.under, viewBase_start]
     generalize viewStart base subs = s at *
     by_cases h1 : r.hi < r.lo
     · have : s + r.hi < s + r.lo := by omega
@@ -123,46 +139,17 @@ theorem vstep_spec (c : Cfg) (F : List UInt8) (hc : 0 < c.chunk) (hsz : F.length
 
 /-- **Step lemma for both layers.** -/
 theorem xstep_spec (c : Cfg) (F : List UInt8) (hc : 0 < c.chunk) (hsz : F.length < U64)
-    (hf : Faithful F c.src) (st : St) (hinv : Inv F st) (op : XOp) (hstart : op.startOk) :
+    (hf : Faithful F c.src) (st : St) (hinv : Inv F st) (op : XOp) :
     Inv F (xstep c st op).1 ∧
     ((xstep c st op).2 = xspec F c.src op ∨
      ((xstep c st op).2 = .err op.srcErr ∧ (xstep c st op).1 = st ∧ SrcFails c F (op.under F.length))) := by
   cases op with
   | base op => exact step_spec c F hc hsz hf st hinv op
-  | view v => exact vstep_spec c F hc hsz hf st hinv v hstart
+  | view v => exact vstep_spec c F hc hsz hf st hinv v
 
-/-- the cache state is untouched by a view whose `make_subrange` chain overflows (the call panics before it
-reaches the cache) and the invariant is kept by every call of both layers, overflowing or not -/
 theorem xstep_inv (c : Cfg) (F : List UInt8) (hc : 0 < c.chunk) (hsz : F.length < U64)
-    (hf : Faithful F c.src) (st : St) (hinv : Inv F st) (op : XOp) : Inv F (xstep c st op).1 := by
-  cases op with
-  | base op => exact (step_spec c F hc hsz hf st hinv op).1
-  | view v =>
-    cases v with
-    | entire => exact (vstep_spec c F hc hsz hf st hinv .entire trivial).1
-    | wread o n => exact (vstep_spec c F hc hsz hf st hinv (.wread o n) trivial).1
-    | wuntil r d => exact (vstep_spec c F hc hsz hf st hinv (.wuntil r d) trivial).1
-    | vread base subs o n =>
-      by_cases h : viewStart base subs < U64
-      · exact (vstep_spec c F hc hsz hf st hinv (.vread base subs o n) h).1
-      · simp only [xstep, vstep]
-        cases hb : (viewBase st.fileLen base).build subs with
-        | none => exact hinv
-        | some v =>
-          simp only
-          split
-          · exact hinv
-          · exact (readBytesAt_spec c F hc hsz hf st hinv _ n).1
-    | vuntil base subs r d =>
-      simp only [xstep, vstep]
-      cases hb : (viewBase st.fileLen base).build subs with
-      | none => exact hinv
-      | some v =>
-        simp only
-        repeat' split
-        all_goals first
-          | exact hinv
-          | exact (readBytesAtUntil_spec c F hc hsz hf st hinv _ d).1
+    (hf : Faithful F c.src) (st : St) (hinv : Inv F st) (op : XOp) : Inv F (xstep c st op).1 :=
+  (xstep_spec c F hc hsz hf st hinv op).1
 
 theorem xrun_inv (c : Cfg) (F : List UInt8) (hc : 0 < c.chunk) (hsz : F.length < U64)
     (hf : Faithful F c.src) (ops : List XOp) : Inv F (xrun c F.length ops) := by
@@ -185,7 +172,7 @@ theorem xrun_base (c : Cfg) (fileLen : Nat) (ops : List Op) :
 refuses it before it reaches the cache, it is exactly `CC.step` on `v.under` (state and outcome), with the
 outcome post-processed (`Err(())`). The wrapper touches no shared state, so at lock granularity a view call
 has the atomic sections of its cache-level call. -/
-theorem vstep_reduces (c : Cfg) (st : St) (v : VOp) (hstart : v.startOk) :
+theorem vstep_reduces (c : Cfg) (st : St) (v : VOp) :
     vstep c st v =
       if v.refused then (st, .err .discarded)
       else ((step c st (v.under st.fileLen)).1, v.post (step c st (v.under st.fileLen)).2) := by
@@ -194,16 +181,10 @@ theorem vstep_reduces (c : Cfg) (st : St) (v : VOp) (hstart : v.startOk) :
   | wread o n => simp [vstep, VOp.refused, VOp.under, VOp.post, step]
   | wuntil r d => simp [vstep, VOp.refused, VOp.under, VOp.post, step]
   | vread base subs o n =>
-    simp only [VOp.startOk] at hstart
-    obtain ⟨v', hb, hv⟩ := build_ok (viewBase st.fileLen base) subs (by rw [viewBase_start]; exact hstart)
-    rw [viewBase_start] at hv
-    simp only [vstep, hb, hv, VOp.refused, VOp.under, VOp.post, step]
+    simp only [vstep, viewBase_start, VOp.refused, VOp.under, VOp.post, step]
     by_cases h : U64 ≤ viewStart base subs + o <;> simp [h]
   | vuntil base subs r d =>
-    simp only [VOp.startOk] at hstart
-    obtain ⟨v', hb, hv⟩ := build_ok (viewBase st.fileLen base) subs (by rw [viewBase_start]; exact hstart)
-    rw [viewBase_start] at hv
-    simp only [vstep, hb, hv, VOp.refused, VOp.under, VOp.post, step]
+    simp only [vstep, viewBase_start, VOp.refused, VOp.under, VOp.post, step]
     by_cases h1 : r.hi < r.lo
     · simp [h1]
     by_cases h2 : U64 ≤ viewStart base subs + r.lo
